@@ -25,6 +25,9 @@ type Case struct {
 	// Prefix (C19): number of leading calls applied to the receiver BEFORE
 	// Session{DryRun:true} / ToSQL is taken from it.
 	Prefix int `json:"receiver_prefix,omitempty"`
+	// QueryFields (C19 handle configuration): 0 off, 1 Config.QueryFields,
+	// 2 switched on by an earlier Session the DryRun session / ToSQL is taken from.
+	QueryFields int `json:"query_fields,omitempty"`
 }
 
 // Slot is one argument position of a resolved program.
@@ -264,6 +267,9 @@ func (p *Prog) String() string {
 	if p.Case.Prefix > 0 {
 		agu += fmt.Sprintf(" receiver-prefix=%d", p.Case.Prefix)
 	}
+	if p.Case.QueryFields > 0 {
+		agu += " QueryFields=" + []string{"", "config", "earlier-session"}[p.Case.QueryFields]
+	}
 	if p.Case.Logger > 0 {
 		agu += " logger=" + []string{"discard", "info+parameterized", "silent", "debug()"}[p.Case.Logger]
 	}
@@ -308,7 +314,7 @@ func (s Shape) Prog(classes []int) *Prog {
 
 // FullCase returns the serialisable form of a resolved program.
 func (p *Prog) FullCase() Case {
-	c := Case{Model: p.Case.Model, Fin: p.Fin.Label, Readable: p.String(), Strict: p.Case.Strict, SessionAGU: p.Case.SessionAGU, Logger: p.Case.Logger, Prefix: p.Case.Prefix}
+	c := Case{Model: p.Case.Model, Fin: p.Fin.Label, Readable: p.String(), Strict: p.Case.Strict, SessionAGU: p.Case.SessionAGU, Logger: p.Case.Logger, Prefix: p.Case.Prefix, QueryFields: p.Case.QueryFields}
 	for _, o := range p.Ops {
 		c.Ops = append(c.Ops, o.Label)
 	}
